@@ -37,6 +37,7 @@ func runC07(c *Ctx, r *Report) {
 	c07R9(c, r, "C07.R9")
 	c07ALPN(c, r, "C07.R11")
 	c07Hello(c, r, "C07.R12")
+	c07PlaceholdersFirst(c, r, "C07.R13")
 	// R6
 	c06R3only(c, r, "C07.R6", "modules/l4tls.")
 }
